@@ -140,6 +140,9 @@ def run(chk, replay):
         # Fac(l) = the PRODUCT of the ratios below it per level-0 cell
         from harness import refine
         refine.phase(chk, "grid")
+    # code -> spec at scale: recorded runs on random nested meshes (up to 4 levels, 64 x 64 pixels) judged by CoverTrace.tla
+    from harness import covertrace
+    covertrace.phase(chk, "whip")
 
 
 def _run(chk, replay):
